@@ -2,10 +2,43 @@
 // again (refreshed) with a new address and a deadline one minute away; its own id is registered too.  The table must hold exactly one
 // entry for the contact, with the NEWEST address and deadline, and must not hold the node's own id.  exit 1 = violated.
 #include "ephemeralnet/dht/KademliaTable.hpp"
+#include <algorithm>
 #include <cstdio>
+#include <string>
+#include <vector>
 using namespace ephemeralnet;
 using namespace std::chrono;
-int main() {
+// scenario closest: contacts spread over several buckets; for several targets and limits the answer must be the `limit` nearest unexpired
+// contacts in increasing XOR distance (reference: brute-force sort of all contacts by distance)
+static int closest() {
+    PeerId self{};                      // all zero: the bucket of an id is the position of its highest set bit
+    KademliaTable t(self);
+    const std::uint8_t first_bytes[] = {0x40, 0x01, 0x20, 0xFF, 0x03, 0x10};
+    std::vector<PeerContact> all;
+    for (auto b : first_bytes) { PeerContact c{}; c.id[0] = b; c.address = "10.0.0." + std::to_string(b) + ":1"; c.expires_at = steady_clock::now() + hours(1); t.register_peer(c); all.push_back(c); }
+    const std::uint8_t targets[] = {0x81, 0x02, 0x7F, 0x41, 0x00, 0x11};
+    for (auto tb : targets) for (std::size_t limit = 1; limit <= 7; ++limit) {
+        PeerId target{}; target[0] = tb;
+        auto want = all;
+        std::sort(want.begin(), want.end(), [&](const PeerContact& a, const PeerContact& b) { return (a.id[0] ^ tb) < (b.id[0] ^ tb); });
+        want.resize(std::min(limit, want.size()));
+        const auto got = t.closest_peers(target, limit);
+        bool same = got.size() == want.size();
+        for (std::size_t i = 0; same && i < got.size(); ++i) same = got[i].id == want[i].id;
+        if (!same) {
+            std::printf("REPRODUCED: closest_peers(target %02x.., limit %zu) returned", tb, limit);
+            for (const auto& c : got) std::printf(" %02x", c.id[0]);
+            std::printf(" but the nearest contacts by XOR distance are");
+            for (const auto& c : want) std::printf(" %02x", c.id[0]);
+            std::printf("\n");
+            return 1;
+        }
+    }
+    std::printf("closest_peers returns the nearest contacts in increasing distance\n");
+    return 0;
+}
+int main(int argc, char** argv) {
+    if (argc > 1 && std::string(argv[1]) == "closest") return closest();
     PeerId self{}; self[0] = 0x07;
     KademliaTable t(self);
     PeerContact c{}; c.id[0] = 0x87; c.address = "10.0.0.1:1"; c.expires_at = steady_clock::now() + hours(1);
